@@ -18,7 +18,7 @@ import IstioModel.C01.GenTieS
 generated table honours the dependency relation
 
 Everything in this file is a kernel-checked statement about what the REAL functions of /repo
-returned **in this run** on all rows (16128 + 72576 + 2694 rows, 328k evaluations).
+returned **in this run** on all rows (20160 + 81648 + 2694 rows, 386k evaluations).
 -/
 namespace IstioModel.C01
 
